@@ -201,6 +201,97 @@ Proof.
   apply gen_regexes_in_lemma. exists f. split; assumption.
 Qed.
 
+(* ---- what is a line: the last line counts with or without a final newline ------------------- *)
+Definition no_lf (s : bytes) : Prop := ~ In LF s.
+
+Lemma lines_acc_cut : forall c acc rest,
+  lines_acc acc (c ++ LF :: rest) = lines_acc acc (c ++ [LF]) ++ lines_acc [] rest.
+Proof.
+  induction c as [|x c IH]; intros acc rest; cbn [app lines_acc].
+  - rewrite Ascii.eqb_refl. reflexivity.
+  - destruct (Ascii.eqb x LF); [cbn [app]; f_equal; apply IH | apply IH].
+Qed.
+
+Lemma lines_acc_one : forall a acc, no_lf a -> (acc <> [] \/ a <> []) ->
+  lines_acc acc a = [drop_last_cr (rev acc ++ a)].
+Proof.
+  induction a as [|x a IH]; intros acc Hn Hne; cbn [lines_acc].
+  - rewrite app_nil_r. destruct acc; [destruct Hne; congruence | reflexivity].
+  - destruct (Ascii.eqb_spec x LF) as [->|Hx]; [exfalso; apply Hn; left; reflexivity|].
+    rewrite IH; [|intros H; apply Hn; right; exact H | left; discriminate].
+    cbn [rev]. rewrite <- app_assoc. reflexivity.
+Qed.
+
+Lemma lines_acc_one_nl : forall a acc r, no_lf a ->
+  lines_acc acc (a ++ LF :: r) = drop_last_cr (rev acc ++ a) :: lines_acc [] r.
+Proof.
+  induction a as [|x a IH]; intros acc r Hn; cbn [app lines_acc].
+  - rewrite Ascii.eqb_refl, app_nil_r. reflexivity.
+  - destruct (Ascii.eqb_spec x LF) as [->|Hx]; [exfalso; apply Hn; left; reflexivity|].
+    rewrite IH; [|intros H; apply Hn; right; exact H]. cbn [rev]. rewrite <- app_assoc. reflexivity.
+Qed.
+
+(* [head] = everything before the last line: empty, or ending in LF *)
+Definition whole_lines (head : bytes) : Prop := head = [] \/ exists h, head = h ++ [LF].
+
+Lemma exclusion_file_last_line_lemma (head last : bytes) :
+  whole_lines head -> no_lf last -> last <> [] ->
+  read_lines (head ++ last) = read_lines head ++ [drop_last_cr last]
+  /\ read_lines (head ++ last ++ [LF]) = read_lines head ++ [drop_last_cr last]
+  /\ read_lines (head ++ last ++ [CR; LF]) = read_lines head ++ [drop_last_cr (last ++ [CR])].
+Proof.
+  intros Hh Hn Hne. unfold read_lines. destruct Hh as [->|[h ->]].
+  - cbn [app]. repeat split.
+    + rewrite lines_acc_one; [reflexivity | exact Hn | right; exact Hne].
+    + rewrite lines_acc_one_nl; [reflexivity | exact Hn].
+    + change (last ++ [CR; LF]) with (last ++ [CR] ++ [LF]). rewrite app_assoc, lines_acc_one_nl; [reflexivity|].
+      intros H. apply in_app_or in H as [H|[H|[]]]; [exact (Hn H) | discriminate].
+  - repeat split; rewrite <- app_assoc; cbn [app]; rewrite lines_acc_cut; f_equal.
+    + rewrite lines_acc_one; [reflexivity | exact Hn | right; exact Hne].
+    + rewrite lines_acc_one_nl; [reflexivity | exact Hn].
+    + change (last ++ [CR; LF]) with (last ++ [CR] ++ [LF]). rewrite app_assoc, lines_acc_one_nl; [reflexivity|].
+      intros H. apply in_app_or in H as [H|[H|[]]]; [exact (Hn H) | discriminate].
+Qed.
+
+Lemma drop_last_cr_app_cr s : drop_last_cr (s ++ [CR]) = s.
+Proof.
+  induction s as [|c r IH]; [reflexivity|]. cbn [app]. destruct r as [|d r'].
+  - cbn. reflexivity.
+  - change (drop_last_cr (c :: (d :: r') ++ [CR])) with (c :: drop_last_cr ((d :: r') ++ [CR])). rewrite IH. reflexivity.
+Qed.
+
+(* ... hence it is in force: an exclusion file whose last line [re] lacks the final newline (or
+   ends in LF, or in CRLF) still excludes every URL that [re] matches *)
+Lemma exclusion_file_last_line_in_force_lemma (matches : bytes -> bytes -> bool) :
+  forall (before after : list bytes) (head re eol : bytes) (c : opcfg) host text,
+    whole_lines head -> no_lf re -> re <> [] -> drop_last_cr re = re ->
+    eol = [] \/ eol = [LF] \/ eol = [CR; LF] ->
+    matches re text = true ->
+    in_scope c host text
+      (map (fun r => matches r text) (gen_regexes_raw (before ++ [head ++ re ++ eol] ++ after))) = false.
+Proof.
+  intros before after head re eol c host text Hh Hn Hne Hcr Heol Hm.
+  apply exclusion_wins_lemma. apply excluded_spec. right. right.
+  apply in_map_iff. exists re. split; [exact Hm|].
+  unfold gen_regexes_raw. apply gen_regexes_in_lemma. exists (read_lines (head ++ re ++ eol)). split.
+  - apply in_map. apply in_or_app. right. left. reflexivity.
+  - destruct (exclusion_file_last_line_lemma head re Hh Hn Hne) as [H1 [H2 H3]].
+    destruct Heol as [->|[->| ->]].
+    + rewrite app_nil_r, H1. apply in_or_app. right. left. exact Hcr.
+    + rewrite H2. apply in_or_app. right. left. exact Hcr.
+    + rewrite H3, drop_last_cr_app_cr. apply in_or_app. right. left. reflexivity.
+Qed.
+
+Example ex_read_lines :
+  read_lines (bs "a" ++ [LF] ++ bs "b") = [bs "a"; bs "b"]
+  /\ read_lines (bs "a" ++ [LF] ++ bs "b" ++ [LF]) = [bs "a"; bs "b"]
+  /\ read_lines (bs "a" ++ [CR; LF] ++ bs "b" ++ [CR; LF]) = [bs "a"; bs "b"]
+  /\ read_lines (bs "a" ++ [LF; LF] ++ bs "b") = [bs "a"; []; bs "b"]
+  /\ read_lines (bs "a" ++ [LF; LF]) = [bs "a"; []]
+  /\ read_lines [] = [] /\ read_lines [LF] = [[]] /\ read_lines [CR] = [[]]
+  /\ read_lines (bs "a" ++ [CR; CR; LF]) = [bs "a" ++ [CR]].
+Proof. vm_compute. repeat split; reflexivity. Qed.
+
 Example ex_two_files :
   gen_regexes [[bs "a"; bs ""]; []; [bs "b"]] = [bs "a"; bs ""; bs "b"]
   /\ in_scope (OC [] [] [] []) (bs "h.example") (bs "http://h.example/x.pdf")
